@@ -4,7 +4,7 @@
     theorem holds for all of them. *)
 From Coq Require Import String.
 From Coq Require Import NArith ZArith List.
-From CB Require Import Contract.SchemaJson Contract.SchemaJsonProofs Contract.CcSchemaCodec.
+From CB Require Import Contract.SchemaJson Contract.SchemaJsonProofs Contract.CcSchemaCodec Contract.CcSchemaCodecProofs.
 Import ListNotations.
 Local Open Scope N_scope.
 
@@ -68,3 +68,56 @@ Example json_roundtrip_nonvacuous :
              (str_of "kind", JObj [(str_of "B", JArr [JBool true])])].
 Proof. vm_compute. repeat split; reflexivity. Qed.
 Print Assumptions json_roundtrip_nonvacuous.
+
+(** * Schemas in binary form: decode (encode x) = x with the rest of the input untouched, for Type
+    (and Fields inside it), FunctionV1/V2, and modules of every version (ContractV0..V3 inside them),
+    with the version prefix and without it.  [cwf_*]: names are UTF-8, counts/sizes are u32, tags u8,
+    maps are in increasing key order (what the Rust values satisfy by construction). *)
+Theorem schema_binary_roundtrip_type : forall t rest, cwf_ty t = true ->
+  dec_ty_top (enc_ty t ++ rest) = Some (t, rest).
+Proof. exact enc_dec_ty_top. Qed.
+Print Assumptions schema_binary_roundtrip_type.
+
+Theorem schema_binary_roundtrip_function_v1 : forall f rest, cwf_f1 f = true ->
+  dec_f1_top (enc_f1 f ++ rest) = Some (f, rest).
+Proof. exact enc_dec_f1_top. Qed.
+Print Assumptions schema_binary_roundtrip_function_v1.
+
+Theorem schema_binary_roundtrip_function_v2 : forall f rest, cwf_f2 f = true ->
+  dec_f2_top (enc_f2 f ++ rest) = Some (f, rest).
+Proof. exact enc_dec_f2_top. Qed.
+Print Assumptions schema_binary_roundtrip_function_v2.
+
+Theorem schema_binary_roundtrip_versioned : forall m rest, cwf_module m = true ->
+  dec_versioned_top (enc_versioned m ++ rest) = Some (m, rest).
+Proof. exact enc_dec_versioned_top. Qed.
+Print Assumptions schema_binary_roundtrip_versioned.
+
+Theorem schema_binary_roundtrip_unversioned : forall m rest, cwf_module m = true ->
+  dec_module_top (module_version m) (enc_module_body m ++ rest) = Some (m, rest).
+Proof. exact enc_dec_module_top. Qed.
+Print Assumptions schema_binary_roundtrip_unversioned.
+
+(** [VersionedModuleSchema::new] on prefixed bytes ignores the caller's version hint. *)
+Theorem schema_new_reads_prefix : forall m hint, cwf_module m = true ->
+  schema_new (enc_versioned m) hint = Some m.
+Proof. exact schema_new_versioned. Qed.
+Print Assumptions schema_new_reads_prefix.
+
+(** Decoding is not injective (maps are read without an order check): only encode-then-decode holds. *)
+Theorem schema_decoding_not_canonical :
+  exists bs m, dec_versioned_top bs = Some (m, []) /\ enc_versioned m <> bs.
+Proof. exact module_decoding_not_canonical. Qed.
+Print Assumptions schema_decoding_not_canonical.
+
+Definition ex_module : module_schema :=
+  MV3 [(str_of "a", {| c3_init := Some {| f2_param := Some ex_ty; f2_ret := None; f2_err := Some TU8 |};
+                       c3_receive := [(str_of "f", {| f2_param := None; f2_ret := Some (TList SL32 TAccountAddress); f2_err := None |});
+                                      (str_of "g", {| f2_param := None; f2_ret := None; f2_err := None |})];
+                       c3_event := Some (TTaggedEnum (TVcons 0 (str_of "E") FNone (TVcons 255 (str_of "F") FNone TVnil))) |});
+       (str_of "b", {| c3_init := None; c3_receive := []; c3_event := None |})].
+Example schema_roundtrip_nonvacuous :
+  cwf_ty ex_ty = true /\ cwf_module ex_module = true
+  /\ firstn 12 (enc_versioned ex_module) = [255; 255; 3; 2; 0; 0; 0; 1; 0; 0; 0; 97].
+Proof. vm_compute. repeat split; reflexivity. Qed.
+Print Assumptions schema_roundtrip_nonvacuous.
